@@ -290,6 +290,8 @@ Inductive op :=
 | OpChangePriv (old new : N)
 | OpChangePub (old new : N)
 | OpNewAccount (sc : N)
+| OpNewRawAccount (sc n : N)                 (* NewRawAccount(number): the entry point lnd uses for its key families *)
+| OpNewScope                                 (* NewScopedKeyManager for a scope that does not exist (needs the master HD private key) *)
 | OpNewWatchAccount (sc : N)                 (* NewAccountWatchingOnly (imported xpub) *)
 | OpAcctProps (sc acct : N)                  (* AccountProperties: loads the account into the cache *)
 | OpNextAddr (sc acct : N) (internal : bool) (* Next{External,Internal}Addresses(acct, 1) *)
@@ -674,6 +676,30 @@ Definition do_new_account (sc : N) (s : state) : state * rc :=
   else if locked s then (s, RLocked)
   else (add_account sc {| dr_watch := false; dr_has_priv := true; dr_next_ext := 0; dr_next_int := 0 |} s, ROk).
 
+(* NewRawAccount(number), name "act:<number>".  Assumption (the harness stays
+   inside it): the number is not in use - or in use by an earlier
+   NewRawAccount, in which case the NAME exists already (ErrDuplicateAccount).
+   newAccount records the number as the scope's last account. *)
+Definition do_new_raw_account (sc n : N) (s : state) : state * rc :=
+  if watch s then (s, RWatchOnly)
+  else if locked s then (s, RLocked)
+  else match alookup pair_eqb (sc, n) (d_accts (sd s)) with
+  | Some _ => (s, ROther)
+  | None =>
+    let d := sd s in
+    (with_disk s (disk_last (disk_accts d (d_accts d ++ [((sc, n), {| dr_watch := false; dr_has_priv := true;
+                                                                      dr_next_ext := 0; dr_next_int := 0 |})]))
+                            (aupsert N.eqb sc n (d_last d))), ROk)
+  end.
+
+(* NewScopedKeyManager: a locked manager refuses (the cointype key is derived
+   from the master HD private key).  On a watching-only manager it creates a
+   scope without private material, on an unlocked one a full scope: neither is
+   modelled (ROther) and the harness calls it only on a locked manager that is
+   not watching-only. *)
+Definition do_new_scope (s : state) : state * rc :=
+  if negb (watch s) && locked s then (s, RLocked) else (s, ROther).
+
 Definition do_new_watch_account (sc : N) (s : state) : state * rc :=
   (add_account sc {| dr_watch := true; dr_has_priv := false; dr_next_ext := 0; dr_next_int := 0 |} s, ROk).
 
@@ -1040,6 +1066,8 @@ Definition step (F : facts) (s : state) (o : op) : state * rc :=
   | OpChangePriv old new => do_change_priv F old new s
   | OpChangePub old new => do_change_pub old new s
   | OpNewAccount sc => do_new_account sc s
+  | OpNewRawAccount sc n => do_new_raw_account sc n s
+  | OpNewScope => do_new_scope s
   | OpNewWatchAccount sc => do_new_watch_account sc s
   | OpAcctProps sc acct => do_acct_props F sc acct s
   | OpNextAddr sc acct internal => do_next_addr F sc acct internal s
